@@ -9,6 +9,9 @@ for f in glob.glob(os.path.join(V, "coq", "Gen", "*.v")):
     txt = open(f).read()
     for m in re.finditer(r"^\s*(?:Definition|Fixpoint)\s+([A-Za-z0-9_']+)", txt, re.M):
         gen.setdefault(m.group(1), os.path.basename(f))
+    # a function returning a closure over the Muxer / Demuxer is a constructor of the inductive MuxerOpt / DemuxerOpt
+    for m in re.finditer(r"^\|[ \t]+([A-Za-z0-9_']+)[ \t]+\([^=>\n]*\)[ \t]*\.?[ \t]*$", txt, re.M):
+        gen.setdefault(m.group(1), os.path.basename(f))
     for m in re.finditer(r"NOT TRANSLATED[^:]*:\s*([A-Za-z0-9_.]+)", txt):
         gen.setdefault("!" + m.group(1), os.path.basename(f))
 out = {}
